@@ -20,6 +20,15 @@ Contracts on the generated `from_str` (the real macro of /repo expands every typ
     content and symbolic length <= L (bounded). In this harness `str::to_lowercase` (called by the generated code) is
     stubbed by a fixed-capacity byte-wise ASCII model (real to_lowercase does not terminate under CBMC on symbolic input).
 
+    Groups of 2, 3, 4 and 5 variants differing only in case, in several declaration orders (odd sizes catch a stale
+    "seen once / seen twice" classification). For selected enums (quick) / every enum (thorough) `ob_error_text` renders the
+    error with `write!` into a fixed 96-byte sink and requires the text to contain the enum's name between backquotes
+    (enum names starting with lower-case `r` included) -- `==` on the error does not see its Display impl.
+
+(a') `n_inherent_from_str_*`: the field probe `R` has, next to `impl FromStr for R`, an inherent `R::from_str` of the same signature
+    that does the opposite; the reference is the trait impl (`<F as FromStr>::from_str`), so generated code that resolves to
+    the inherent function is caught.
+
 (c) every variant's own name parses back to that variant: one concrete-input harness per variant, REAL `to_lowercase`
     (no stub), plus one harness per variant that checks the post-condition on the all-upper / all-lower spelling of its name
     (also with the real `to_lowercase`).
